@@ -76,6 +76,10 @@ def compare_static(ctx, case, res, target):
         gok, gerr = refcc.syntax_ok(path, "gcc", "gnu2x", pedantic=True)
         if not gok:
             import re as _re
+            # gcc 12 does not know C23's empty initialiser yet: that one pedantic complaint is not a reason to drop the case
+            if all("empty initializer braces" in ln for ln in gerr.splitlines() if " error: " in ln):
+                gok = True
+        if not gok:
             m = _re.search(r"error: ([^\n]*)", gerr)
             res.discard.append("gcc-pedantic-rejects: " + (_re.sub(r"'[^']*'", "X", m.group(1))[:50] if m else "?"))
             return
